@@ -112,6 +112,8 @@ func Universe() []UVal {
 		specU("uint64(2^63)", &Spec{K: "int", U: 1 << 63, R: "uint64"}),
 		specU("2.5", SFloat(2.5)),
 		specU("-0.5", SFloat(-0.5)),
+		specU("-0.0", SFloat(math.Copysign(0, -1))),
+		specU("0.0", SFloat(0)),
 		specU("1.0", SFloat(1)),
 		specU("2.0", SFloat(2)),
 		specU("1e300", SFloat(1e300)),
@@ -153,6 +155,7 @@ func Universe() []UVal {
 		specU("[1]", SArr(SInt(1))),
 		specU("[nil,1,nil]", SArr(SNil(), SInt(1), SNil())),
 		specU("[[1,2],[3]]", SArr(SArr(SInt(1), SInt(2)), SArr(SInt(3)))),
+		specU("named b", withRep(SStr("b"), "named")),
 		specU("[]string", withRep(SArr(SStr("b"), SStr("a"), SStr("B")), "typed")),
 		specU("[strs]", SArr(SStr("b"), SStr("a"), SStr("B"), SStr("a"))),
 		specU("{a:1,b:2}any", withRep(SMap("a", SInt(1), "b", SInt(2)), "anykey")),
